@@ -37,10 +37,18 @@ def one_transfer(rng, T=16, C=8, kinds=None, sizes=None):
 def mix(rng, n, T=16, C=8, io=4, hi=3, kinds=None, sizes=None, attempts=2):
     cfg = dict(multipart_threshold=T, multipart_chunksize=C, io_chunksize=io, num_download_attempts=attempts)
     cfg.update(small_limits(rng, hi))
-    return {
+    if rng.random() < 0.12:
+        cfg['max_bandwidth'] = 10 ** 12  # a generous limit: every body is wrapped by the limiter, nothing is ever throttled
+    spec = {
         'seed': rng.randrange(1 << 30),
         'min_part': C,
         'config': cfg,
         'transfers': [one_transfer(rng, T, C, kinds, sizes) for _ in range(n)],
         'plan': {'delay_p': rng.choice([0.0, 0.1, 0.4])},
     }
+    if rng.random() < 0.25:
+        # endpoint / checksum flavours of the client (plain http: botocore reads upload bodies before sending them)
+        spec['client'] = {'checksum': rng.choice(['when_supported', 'when_required']), 'scheme': rng.choice(['https', 'http'])}
+    if n > 1 and rng.random() < 0.15:
+        spec['concurrent_submit'] = True  # every manager call from its own user thread
+    return spec
